@@ -133,13 +133,34 @@ class ClientRoles:
             self.error_parser_inline = True
         # formatter: called from the sender, iterates its argument list
         self.formatter = None
+        cands_f = []
         for n in self.graph.edges[self.sender.name]:
             f = m[n]
             if n in (self.assembler.name, self.line_reader.name, self.block_reader.name):
                 continue
             own = f.params if "staticmethod" in f.decorators else f.params[1:]
             if any(isinstance(x, (ast.For, ast.ListComp)) for x in ast.walk(f.node)) and len(own) >= 1:
-                self.formatter = f
+                # the formatter is the one whose result becomes part of the line that is written (a helper that loops over the
+                # arguments to describe them in a trace does not)
+                score = 0
+                for c in walk_no_nested(self.sender.node):
+                    if isinstance(c, ast.Call) and isinstance(c.func, ast.Attribute) and c.func.attr == n:
+                        p_ = getattr(c, "_parent", None)
+                        joined = False
+                        while p_ is not None and not isinstance(p_, ast.stmt):
+                            if isinstance(p_, ast.Call) and isinstance(p_.func, ast.Attribute) and p_.func.attr == "join":
+                                joined = True
+                            p_ = getattr(p_, "_parent", None)
+                        if joined:
+                            score += 10
+                        elif isinstance(p_, ast.Assign) and len(p_.targets) == 1 and isinstance(p_.targets[0], ast.Name):
+                            v_ = p_.targets[0].id
+                            if any(isinstance(j, ast.Call) and isinstance(j.func, ast.Attribute) and j.func.attr == "join" and any(
+                                    isinstance(x, ast.Name) and x.id == v_ for a_ in j.args for x in ast.walk(a_)) for j in walk_no_nested(self.sender.node)):
+                                score += 10
+                cands_f.append((score, f))
+        if cands_f:
+            self.formatter = sorted(cands_f, key=lambda t: -t[0])[0][1] if any(sc for sc, _ in cands_f) else cands_f[-1][1]
         # literal builder: returns a bytes template containing "{%d+}" / "{" ... "+}"
         self.literal_builder = None
         for n, f in m.items():
